@@ -1,0 +1,42 @@
+//go:build verif
+
+package git
+
+import (
+	"github.com/go-git/go-git/v5"
+	"github.com/go-git/go-git/v5/utils/merkletrie"
+)
+
+// VerifChange is one entry of the changed-file list that Compare iterates over.
+type VerifChange struct {
+	File   string // path (relative to the repository root) that Compare compiles in both trees
+	Action string // "modify" | "delete" | "insert"
+}
+
+// VerifChangedThrift exposes findChangedThrift (the HEAD~..HEAD tree diff with rename
+// detection, filtered to .thrift files) to the verification harness. It adds no behaviour.
+func VerifChangedThrift(path string) ([]VerifChange, error) {
+	r, err := git.PlainOpenWithOptions(path, &git.PlainOpenOptions{
+		DetectDotGit:          true,
+		EnableDotGitCommonDir: true,
+	})
+	if err != nil {
+		return nil, err
+	}
+	h, err := findChangedThrift(r)
+	if err != nil {
+		return nil, err
+	}
+	out := make([]VerifChange, 0, len(h.changes))
+	for _, c := range h.changes {
+		a := "modify"
+		switch c.change {
+		case merkletrie.Delete:
+			a = "delete"
+		case merkletrie.Insert:
+			a = "insert"
+		}
+		out = append(out, VerifChange{File: c.file, Action: a})
+	}
+	return out, nil
+}
